@@ -284,3 +284,25 @@ func (x *exec) makeMap(st *State, mt *types.Map) Term {
 	x.setHeap(st, hk, Store(harr, ref, constArray(ArrSort(SInt, SBool), False)), &ref)
 	return ref
 }
+
+// wordAt: the n-byte little-endian word at s[pos:pos+n] as an uninterpreted function of its bytes.
+func (x *exec) wordAt(st *State, s *SliceV, pos Term, n int) Term {
+	key := elemKey(types.Typ[types.Uint8], "")
+	h := x.getHeap(st, key, ArrSort(SInt, ArrSort(SInt, SInt)))
+	return x.wordOf(Select(h, s.Arr), Add(s.Off, pos), n)
+}
+
+// wordOf: the n-byte little-endian word at absolute position pos of a byte array, as an
+// uninterpreted function W(arr, pos) that depends only on those n bytes (T-std).
+func (x *exec) wordOf(arr Term, pos Term, n int) Term {
+	name := fmt.Sprintf("W%d", n*8)
+	bs := ArrSort(SInt, SInt)
+	x.ctx.declareFun(name, []Sort{bs, SInt}, SInt)
+	if !x.ctx.wordAx[name] {
+		x.ctx.wordAx[name] = true
+		ax := func(f string) { x.ctx.Axioms = append(x.ctx.Axioms, Term{f, SBool}) }
+		ax(fmt.Sprintf("(forall ((a (Array Int Int)) (p Int)) (! (and (<= 0 (%s a p)) (< (%s a p) %s)) :pattern ((%s a p))))", name, name, p2(n*8).String(), name))
+		x.ctx.note("T-std: a little-endian word is an uninterpreted function " + name + "(bytes, pos) of the bytes at pos..pos+" + fmt.Sprint(n-1))
+	}
+	return app(SInt, name, arr, pos)
+}
